@@ -37,6 +37,19 @@ CLAIMED = {
                  'non-cancelled* engine task (wrapped iff it is an Exception) or, when no task failed, the stored output value '
                  '(C05_* in Props/C05.lean). Partial: that a task fails only if a required node failed is tied by lock-step and '
                  'monitored against Sem in the fragments.', '§6 C05'),
+    'C07': ('Lean 4 theorems (the model has no state that survives a run) + lock-step of histories against fresh model instances',
+            'Proof: in the engine model every run starts from the constant Eng.init and a step is a pure function of the program and '
+            'the run\'s own state (C07_*): by construction the k-th run of a history is a first run. The statement is simple because the '
+            'model has no chart-level mutable state — that the code is like that (after the fix commits for one-of / recurrent state '
+            'on the shared graph) is established by the tie: histories of 2–6 sequential runs on one chart object, each lock-stepped '
+            'against a fresh model instance, with deep snapshots of DAG, node classes, input dict, pool shutdown between runs, and the '
+            'same run repeated on a fresh chart.', SCHED_NOTE, '§6 C07'),
+    'C08': ('Lean 4 non-interference theorem over the product of run models + per-run lock-step of overlapping runs',
+            'Proof: overlapping runs are the product of independent model instances; a step of run i leaves every other run\'s state '
+            'untouched and the projection of any interleaved execution onto a run is an execution of that run alone '
+            '(C08_projection_is_solo_run, by induction over all interleavings). Tie: 2–4 overlapping runs of one chart on one loop '
+            '(one possibly cancelled); each run\'s events are replayed on its own fresh model instance, so any influence of another '
+            'run is a divergence; outcomes compared with solo runs.', SCHED_NOTE, '§6 C08'),
     'C09': sched('Proof (general, local tier): _run_switch selects exactly a declared case whose label is the stored result of the '
                  'decision node, records it, runs input→case inline; an unmatched label wakes run() and fails with SwitchNoCase; '
                  'case edges are invisible in every reduced DAG (C09_*). Partial: routing/liveness under all schedules is tied and '
